@@ -282,6 +282,9 @@ pub struct WorkerResult {
     pub enumerated: u64,
     pub nontrivial: u64,
     pub distinct_nontrivial_hashes: Vec<u64>,
+    /// the per-worker set of case hashes reached its cap: the distinct count is a lower bound
+    #[serde(default)]
+    pub hashes_capped: bool,
     pub labels: BTreeMap<String, u64>,
     pub samples: Vec<serde_json::Value>,
     pub known_hits: BTreeMap<String, u64>,
@@ -296,6 +299,9 @@ struct Stats {
     hashes: HashSet<u64>,
     sample_labels: HashSet<String>,
 }
+
+/// at most this many distinct non-trivial cases are told apart per worker
+const HASH_CAP: usize = 1 << 21;
 
 fn hash_case<C: Serialize>(c: &C) -> u64 {
     let s = serde_json::to_string(c).unwrap_or_default();
@@ -458,8 +464,13 @@ pub fn run_worker<P: Property>(
         }
         if out.nontrivial {
             st.res.nontrivial += 1;
-            let h = hash_case(case);
-            st.hashes.insert(h);
+            // distinct-case accounting is capped (memory and result-file size in very long campaigns)
+            if st.hashes.len() < HASH_CAP {
+                let h = hash_case(case);
+                st.hashes.insert(h);
+            } else {
+                st.res.hashes_capped = true;
+            }
             // keep a sample for up to 4 distinct label-sets
             let key = out.labels.join(",");
             if st.res.samples.len() < 4 && st.sample_labels.insert(key) {
